@@ -135,9 +135,11 @@ func (r *Runner) OpenWith(o txfile.Options) error {
 	if err := r.D.Lock(true, false); err != nil {
 		return err
 	}
-	f, err := txfile.VerifOpenWith(r.D, o)
+	f, err := r.E.OpenFile(r.D, o)
 	if err != nil {
-		r.D.Unlock()
+		if r.D.Unlock() != nil {
+			r.D.ForceUnlock() // injected unlock failure: see C08
+		}
 		return err
 	}
 	r.F = f
@@ -157,9 +159,11 @@ func (r *Runner) OpenRawWith(o txfile.Options) error {
 	if err := r.D.Lock(true, false); err != nil {
 		return err
 	}
-	f, err := txfile.VerifOpenWith(r.D, o)
+	f, err := r.E.OpenFile(r.D, o)
 	if err != nil {
-		r.D.Unlock()
+		if r.D.Unlock() != nil {
+			r.D.ForceUnlock() // injected unlock failure: see C08
+		}
 		return err
 	}
 	r.F = f
@@ -838,7 +842,7 @@ func (r *Runner) CheckLocksIdle(when string) {
 // Reopen closes and opens the file again and verifies the state.
 func (r *Runner) Reopen() {
 	e := r.E
-	if err := r.F.Close(); err != nil {
+	if err := r.E.CloseFile(r.F); err != nil {
 		if !r.Faulty {
 			e.Fail("C10", "close-error", "File.Close failed: %v", err)
 			return
@@ -879,7 +883,7 @@ func (r *Runner) Close() {
 		r.tx.Close()
 		r.tx = nil
 	}
-	if err := r.F.Close(); err != nil {
+	if err := r.E.CloseFile(r.F); err != nil {
 		r.E.Fail("C10", "close-error", "File.Close failed: %v", err)
 	}
 	r.F = nil
